@@ -24,6 +24,7 @@ import (
 	"strconv"
 	"sync"
 	"testing"
+	"time"
 )
 
 func envOr(k, d string) string {
@@ -42,6 +43,14 @@ func seedVal() int64 {
 		return 1
 	}
 	return s
+}
+
+// No property depends on the time zone of the process: every check runs in a local zone that is
+// not UTC (chosen by the seed), so that code which reads an instant in time.Local shows.
+func init() {
+	zones := []int{-8 * 3600, 5*3600 + 1800, 13 * 3600, -(3*3600 + 1800)}
+	n := int64(len(zones))
+	time.Local = time.FixedZone("VERIF", zones[((seedVal()%n)+n)%n])
 }
 
 // newRand returns a deterministic generator derived from VERIF_SEED and a label.
